@@ -331,6 +331,32 @@ def newExprSetArgs (inst : Nat) : Graph → List (Str × Nat) → Except Diag Gr
     | .error .argumentAlreadyPassed => .error (.duplicateArg name)   -- `panic!` in the code; unreachable
     | .ok g => newExprSetArgs inst g rest
 
+/-- the name computed by `named_instantiation_arg`: the suffix rule for identifiers, strings verbatim -/
+def namedArgumentName (argName : ArgName) (expected : List Str) : Str :=
+  match argName with
+  | .id ident => (findMatchingInterfaceName ident expected).getD ident
+  | .str s => s
+
+/-- the tail of `new_expr`: create the instantiation node, set the arguments, check for missing ones -/
+def newExprFinish (st : State) (pkg : Nat) (expected : List Str) (arguments : List (Str × Nat))
+    (requireAll : Bool) : Except Diag (State × Nat) :=
+  let (g, instantiation) := st.graph.instantiate pkg
+  match newExprSetArgs instantiation g arguments with
+  | .error e => .error e
+  | .ok g =>
+    let st := { st with graph := g }
+    if requireAll then
+      match expected.find? (fun n => !alHas n arguments) with
+      | some name => .error (.missingArg name)
+      | none => .ok (st, instantiation)
+    else .ok (st, instantiation)
+
+/-- the import names (world order) of a registered package -/
+def Graph.expectedOf (g : Graph) (pkg : Nat) : List Str :=
+  match g.packages[pkg]? with
+  | some p => p.imports.names
+  | none => []
+
 mutual
 /-- `AstResolver::expr` + `primary_expr` (the postfix list is the spine of `access`/`namedAccess`) -/
 def expr (self : Str) (st : State) : Expr → Except Diag (State × Nat)
@@ -353,26 +379,13 @@ def expr (self : Str) (st : State) : Expr → Except Diag (State × Nat)
     match resolvePackage st pkgName ver with
     | .error e => .error e
     | .ok (st, pkg) =>
-      let world := match st.graph.packages[pkg]? with
-        | some p => p.imports
-        | none => .nil
-      let expected := world.names
+      let expected := st.graph.expectedOf pkg
       match newExprArgs self expected st [] true args with
       | .error e => .error e
       | .ok (st, arguments, requireAll) =>
         match newExprSpreads expected st arguments args with
         | .error e => .error e
-        | .ok (st, arguments) =>
-          let (g, instantiation) := st.graph.instantiate pkg
-          match newExprSetArgs instantiation g arguments with
-          | .error e => .error e
-          | .ok g =>
-            let st := { st with graph := g }
-            if requireAll then
-              match expected.find? (fun n => !alHas n arguments) with
-              | some name => .error (.missingArg name)
-              | none => .ok (st, instantiation)
-            else .ok (st, instantiation)
+        | .ok (st, arguments) => newExprFinish st pkg expected arguments requireAll
 /-- first loop of `new_expr` (with `named_instantiation_arg` inlined for the recursion) -/
 def newExprArgs (self : Str) (expected : List Str) (st : State) (arguments : List (Str × Nat)) (requireAll : Bool) :
     Args → Except Diag (State × List (Str × Nat) × Bool)
@@ -389,9 +402,7 @@ def newExprArgs (self : Str) (expected : List Str) (st : State) (arguments : Lis
     match expr self st e with
     | .error e => .error e
     | .ok (st, item) =>
-      let name := match argName with
-        | .id ident => (findMatchingInterfaceName ident expected).getD ident
-        | .str s => s
+      let name := namedArgumentName argName expected
       if alHas name arguments then .error (.duplicateArg name)
       else newExprArgs self expected st (arguments ++ [(name, item)]) requireAll rest
   | .cons .fill rest =>
